@@ -349,6 +349,7 @@ def run(res, tier, seed):
     for op, spec in OPS.items():
         n = QUICK[op] * mult
         cases, payloads = [], []
+        history = []
         for _ in range(n):
             c = spec["gen"](random.Random(rng.getrandbits(64)))
             res.count("op_" + op)
@@ -360,7 +361,12 @@ def run(res, tier, seed):
                 bad = f"raised {type(e).__name__}: {e}"
             res.evaluations += 1
             if bad:
-                res.violation("oracle", f"{op}: {bad}; input {json.dumps(c, ensure_ascii=False)[:600]}", {"op": op, "case": c})
+                # the answer may depend on what was asked before in this process: the replay re-asks the earlier cases that
+                # mention one of this case's ids (most recent last) before this one
+                ids = {json.dumps(v[0]) for v in c.get("vars", [])}
+                earlier = [h for h in history if ids & {json.dumps(v[0]) for v in h.get("vars", [])}][-6:]
+                res.violation("oracle", f"{op}: {bad}; input {json.dumps(c, ensure_ascii=False)[:600]}", {"op": op, "case": c, "earlier_cases_in_this_process": earlier})
+            history.append(c)
             try:
                 cases.append((make_term(op, c), c))
             except Exception as e:
@@ -398,6 +404,11 @@ def run(res, tier, seed):
 def replay(payload):
     r = payload.get("replay", payload)
     op, c = r["op"], r["case"]
+    for h in r.get("earlier_cases_in_this_process", []):
+        try:
+            OPS[op]["oracle"](h)
+        except Exception:
+            pass
     bad = OPS[op]["oracle"](c)
     print(op, json.dumps(c, ensure_ascii=False))
     print("property holds on this input" if not bad else "FAILS: " + bad)
